@@ -229,14 +229,28 @@ def replay_coll(recs):
         pts = g.PointCollection(np.array([r["r"]["p"] for r in recs]))
         hs = np.array([r["r"]["h"] for r in recs])
         hc = g.LineCollection(hs) if dim == 2 else g.PlaneCollection(hs)
+        n2 = (len(recs) // 2) * 2
+        pts2 = g.PointCollection(np.asarray(pts.array)[:n2].reshape(2, n2 // 2, -1)) if n2 >= 4 else None
+        hc2 = type(hc)(hs[:n2].reshape(2, n2 // 2, -1)) if n2 >= 4 else None
         for name, fn, key, kind in (("perpendicular", lambda: hc.perpendicular(pts), "perp", "line" if dim == 2 else "line3"),
                                     ("project", lambda: hc.project(pts), "foot", "point"),
                                     ("mirror", lambda: hc.mirror(pts), "mir", "point"),
-                                    ("parallel", lambda: hc.parallel(pts), "par", "line" if dim == 2 else "plane")):
+                                    ("parallel", lambda: hc.parallel(pts), "par", "line" if dim == 2 else "plane"),
+                                    ("perpendicular/two-axes", lambda: hc2.perpendicular(pts2), "perp", "line" if dim == 2 else "line3"),
+                                    ("project/two-axes", lambda: hc2.project(pts2), "foot", "point"),
+                                    ("mirror/two-axes", lambda: hc2.mirror(pts2), "mir", "point"),
+                                    ("parallel/two-axes", lambda: hc2.parallel(pts2), "par", "line" if dim == 2 else "plane")):
+            if name.endswith("two-axes") and hc2 is None:
+                continue
             try:
                 with np.errstate(all="ignore"):
                     val = fn()
                 c = np.asarray(coords_of(val))
+                if name.endswith("two-axes"):
+                    if c.shape[:2] != (2, n2 // 2):
+                        raise ValueError(f"result shape {c.shape}")
+                    c = c.reshape((n2,) + c.shape[2:])
+                    c = np.concatenate([c, np.asarray([r["r"][key] for r in recs[n2:]], dtype=c.dtype).reshape((len(recs) - n2,) + c.shape[1:])]) if len(recs) > n2 else c
                 if kind_of(val) != kind or c.shape[0] != len(recs):
                     raise ValueError(f"result kind {kind_of(val)} shape {c.shape}")
                 for i, r in enumerate(recs):
